@@ -12,7 +12,9 @@ import (
 type bodySpec struct {
 	CT      string `json:"ct"`
 	Body    string `json:"body"`
-	ReadErr int    `json:"read_err,omitempty"` // tag of the error Body.Read (or, with progSpec.Transformer, the body transformer) raises (0: none)
+	ReadErr int    `json:"read_err,omitempty"` // tag of the error reading the body raises: Body.Read itself, or - with ViaTf - the body transformer (0: none)
+	ViaTf   bool   `json:"via_tf,omitempty"`   // ReadErr is returned by the client's response body transformer (progSpec.Transformer) after a clean read
+	Cut     string `json:"cut,omitempty"`      // the body ends before its declared end: length (fewer bytes than Content-Length) | chunked (no terminating chunk)
 	WriteErr int   `json:"write_err,omitempty"` // with progSpec.Save: tag the output writer returns when this body is written to it
 	UmErr   int    `json:"um_err,omitempty"`   // with progSpec.UmCustom: tag the client's custom unmarshal functions return for this body (0: they decode)
 }
@@ -72,7 +74,7 @@ type progSpec struct {
 	Checker  int           `json:"checker,omitempty"`  // 0: default; else index into checkers
 	BodyMode string        `json:"body_mode"`          // none | marshal | getbody
 	Real     bool          `json:"real,omitempty"`     // served by a real loopback origin instead of the in-process stub
-	Transformer  bool      `json:"transformer,omitempty"`  // a response body transformer is installed; ReadErr is raised by it
+	Transformer  bool      `json:"transformer,omitempty"`  // a response body transformer is installed (it fails on the bodies marked ViaTf, passes the others through)
 	UmCustom     bool      `json:"um_custom,omitempty"`    // custom JSON/XML unmarshal functions (SetJsonUnmarshal/SetXmlUnmarshal)
 	Unreplayable bool      `json:"unreplayable,omitempty"` // SetBody(io.Reader)
 	Save         bool      `json:"save,omitempty"`         // SetOutput(writer): the body is downloaded
@@ -105,6 +107,31 @@ var checkers = []func(int) int{
 	},
 }
 
+// the error io.ReadAll(resp.Body) ends with / the error the body transformer returns
+func (p *progSpec) readerErr(b bodySpec) int {
+	if b.Cut != "" {
+		return eCut
+	}
+	if b.ReadErr != 0 && !(p.Transformer && b.ViaTf) {
+		return b.ReadErr
+	}
+	return 0
+}
+func (p *progSpec) tfErr(b bodySpec) int {
+	if b.Cut == "" && b.ReadErr != 0 && p.Transformer && b.ViaTf {
+		return b.ReadErr
+	}
+	return 0
+}
+
+// obtaining the body fails one way or the other
+func (p *progSpec) bodyErr(b bodySpec) int {
+	if e := p.readerErr(b); e != 0 {
+		return e
+	}
+	return p.tfErr(b)
+}
+
 func (p *progSpec) verb() bool { return p.Entry != "do" }
 func (p *progSpec) must() bool { return strings.Contains(p.Entry, "Must") }
 func (p *progSpec) pkg() bool  { return strings.HasPrefix(p.Entry, "pkg.") }
@@ -132,6 +159,7 @@ const eOddForm = -7
 const eUnreplayable = -8
 const eUnknown = -9
 const eCanceled = -10
+const eCut = -11 // io.ErrUnexpectedEOF: the body ended before its declared end
 
 func (p *progSpec) coqBody(b bodySpec) string {
 	um := p.refUnmarshalFails(b)
@@ -144,10 +172,7 @@ func (p *progSpec) coqBody(b bodySpec) string {
 		}
 		return "None"
 	}
-	rd, tf := coqOptZ(b.ReadErr), "None"
-	if p.Transformer {
-		rd, tf = "None", coqOptZ(b.ReadErr)
-	}
+	rd, tf := coqOptZ(p.readerErr(b)), coqOptZ(p.tfErr(b))
 	return fmt.Sprintf("(mkBody %s %s %s %s %s %s)", rd, tf, f(um[0]), f(um[1]), f(um[2]), coqOptZ(b.WriteErr))
 }
 
